@@ -44,6 +44,14 @@ def construct (c : Ctor) (now : Int) : St K V × Bool :=
     newXsyncMapOf (some (Gen.NewOf_cfg opts)) cb now
   | .newDefault dflt cleanup cb =>
     newXsyncMapOf (some (Gen.NewOfDefault_cfg dflt cleanup cb.isSome)) cb now
+  | .newOptsOver base dflt cleanup cb mincap =>
+    let opts : List (Gen.Config → Gen.Config) :=
+      [Gen.WithDefaultExpirationOf base] ++
+      (match cleanup with | some i => [Gen.WithCleanupIntervalOf i] | none => []) ++
+      (match cb with | some _ => [Gen.WithEvictedCallbackOf true] | none => []) ++
+      (match mincap with | some m => [Gen.WithMinCapacityOf m] | none => []) ++
+      [Gen.WithDefaultExpirationOf dflt]
+    newXsyncMapOf (some (Gen.NewOf_cfg opts)) cb now
 
 /-- `i.expired()` -/
 def expired (s : St K V) (i : Item V) : Bool := Gen.itemOf_expired i.e s.now
